@@ -55,6 +55,42 @@ func c38Run(dir string, script []c38Step, symlinked bool, sentinelSeen func(path
 	}
 	var mu sync.Mutex
 	loaded := cur // the server has loaded the file at start
+	step := func(st c38Step) {
+		cur = content()
+		switch {
+		case symlinked:
+			// atomic swap of the ..data symlink
+			dd++
+			os.Mkdir(dataDir(dd), 0o755)                                                 //nolint:errcheck
+			os.WriteFile(filepath.Join(dataDir(dd), "mediamtx.yml"), []byte(cur), 0o644) //nolint:errcheck
+			tmp := filepath.Join(dir, "..data_tmp")
+			os.Symlink(filepath.Base(dataDir(dd)), tmp)  //nolint:errcheck
+			os.Rename(tmp, filepath.Join(dir, "..data")) //nolint:errcheck
+			os.RemoveAll(dataDir(dd - 1))                //nolint:errcheck
+		case st.Op == "write":
+			os.WriteFile(target, []byte(cur), 0o644) //nolint:errcheck
+		case st.Op == "replace":
+			tmp := target + ".tmp"
+			os.WriteFile(tmp, []byte(cur), 0o644) //nolint:errcheck
+			os.Rename(tmp, target)                //nolint:errcheck
+		case st.Op == "recreate":
+			os.Remove(target) //nolint:errcheck
+			time.Sleep(2 * time.Millisecond)
+			os.WriteFile(target, []byte(cur), 0o644) //nolint:errcheck
+		default: // truncate-write: two writes
+			f, _ := os.OpenFile(target, os.O_WRONLY|os.O_TRUNC, 0o644)
+			f.WriteString(cur[:len(cur)/2]) //nolint:errcheck
+			f.Sync()                        //nolint:errcheck
+			f.WriteString(cur[len(cur)/2:]) //nolint:errcheck
+			f.Close()
+		}
+	}
+	first := 0
+	if len(script) > 0 && script[0].GapMs == 0 {
+		// a change right after Initialize() returned (before anything else gives the watcher's goroutine time to start)
+		step(script[0])
+		first = 1
+	}
 	consumerDone := make(chan struct{})
 	ack := make(chan struct{}, 1024)
 	go func() {
@@ -70,36 +106,9 @@ func c38Run(dir string, script []c38Step, symlinked bool, sentinelSeen func(path
 			ack <- struct{}{}
 		}
 	}()
-	for _, st := range script {
+	for _, st := range script[first:] {
 		time.Sleep(time.Duration(st.GapMs) * time.Millisecond)
-		cur = content()
-		switch {
-		case symlinked:
-			// atomic swap of the ..data symlink
-			dd++
-			os.Mkdir(dataDir(dd), 0o755)                                                 //nolint:errcheck
-			os.WriteFile(filepath.Join(dataDir(dd), "mediamtx.yml"), []byte(cur), 0o644) //nolint:errcheck
-			tmp := filepath.Join(dir, "..data_tmp")
-			os.Symlink(filepath.Base(dataDir(dd)), tmp)     //nolint:errcheck
-			os.Rename(tmp, filepath.Join(dir, "..data"))    //nolint:errcheck
-			os.RemoveAll(dataDir(dd - 1))                   //nolint:errcheck
-		case st.Op == "write":
-			os.WriteFile(target, []byte(cur), 0o644) //nolint:errcheck
-		case st.Op == "replace":
-			tmp := target + ".tmp"
-			os.WriteFile(tmp, []byte(cur), 0o644) //nolint:errcheck
-			os.Rename(tmp, target)                //nolint:errcheck
-		case st.Op == "recreate":
-			os.Remove(target)                        //nolint:errcheck
-			time.Sleep(2 * time.Millisecond)
-			os.WriteFile(target, []byte(cur), 0o644) //nolint:errcheck
-		default: // truncate-write: two writes
-			f, _ := os.OpenFile(target, os.O_WRONLY|os.O_TRUNC, 0o644)
-			f.WriteString(cur[:len(cur)/2]) //nolint:errcheck
-			f.Sync()                        //nolint:errcheck
-			f.WriteString(cur[len(cur)/2:]) //nolint:errcheck
-			f.Close()
-		}
+		step(st)
 	}
 	res.finalData = cur
 	// quiescence by logical order: an unrelated file is touched; once the loop has consumed its event it has consumed
@@ -182,7 +191,10 @@ func TestVerifC38(t *testing.T) {
 		for k := 1 + rng.IntN(5); k > 0; k-- {
 			sc = append(sc, c38Step{ops[rng.IntN(len(ops))], gaps[rng.IntN(len(gaps))]})
 		}
-		jobs = append(jobs, job{i, sc, rng.IntN(5) == 0})
+		if rng.IntN(3) == 0 {
+			sc[0].GapMs = 0
+		}
+		jobs = append(jobs, job{i, sc, rng.IntN(3) == 0})
 	}
 	results := make([]c38Result, len(jobs))
 	var wg sync.WaitGroup
@@ -233,7 +245,7 @@ func TestVerifC38(t *testing.T) {
 		}
 	}
 	r.Count("fs_events_consumed_by_the_watcher_loops", int64(consumedEvents))
-	r.Finish("scripts of 1..5 changes of the watched file (write, write-to-temp + rename over, remove + create, truncate + two writes; or, for one script in five, the Kubernetes ConfigMap layout where a ..data symlink is swapped) separated by pauses of 0..2100 ms chosen around the watcher's 1 s minimum interval, played against a real ConfWatcher (real inotify), 16 scripts in parallel in separate directories. A consumer does what Core does (re-reads the file on every notification). After the script an unrelated file is created in the directory and the hook event confwatcher.event shows when the loop has consumed it (so every change was seen by the loop). Oracle (bounded progress): the final content is loaded within 10 s (10 times the minimum interval) after that point; the verdict is taken as soon as it is. non-trivial = distinct script",
+	r.Finish("scripts of 1..5 changes of the watched file (write, write-to-temp + rename over, remove + create, truncate + two writes; or, for one script in three, the Kubernetes ConfigMap layout where a ..data symlink is swapped) separated by pauses of 0..2100 ms (a first pause of 0 means: immediately after Initialize returned) chosen around the watcher's 1 s minimum interval, played against a real ConfWatcher (real inotify), 16 scripts in parallel in separate directories. A consumer does what Core does (re-reads the file on every notification). After the script an unrelated file is created in the directory and the hook event confwatcher.event shows when the loop has consumed it (so every change was seen by the loop). Oracle (bounded progress): the final content is loaded within 10 s (10 times the minimum interval) after that point; the verdict is taken as soon as it is. non-trivial = distinct script",
 		"a script whose sentinel event is not consumed within 20 s is inconclusive, not a violation")
 	_ = rand.IntN
 }
